@@ -42,6 +42,18 @@ def int_exposure_model():
     return lsl.GraphBuilder().add(y).build_model()
 
 
+def ambiguous_key_model():
+    """a position key that is both a variable's name and the name of another node (a weight node `w` next to a parameter variable `w`,
+    whose value node is `w_value`): update_state and extract_position must address the same slot"""
+    import liesel.model as lsl
+    import tensorflow_probability.substrates.jax.distributions as tfd
+    wnode = lsl.Value(2.0, _name="w")
+    wvar = lsl.param(0.3, lsl.Dist(tfd.Normal, loc=0.0, scale=1.0), name="w")
+    loc = lsl.Var(lsl.Calc(lambda a, b: a * b, wnode, wvar), name="loc")
+    y = lsl.obs(jnp.array([0.5, 1.5]), lsl.Dist(tfd.Normal, loc=loc, scale=1.0), name="y")
+    return lsl.GraphBuilder().add(y).build_model()
+
+
 def _reg_goose():
     return regression_with_report()
 
@@ -60,6 +72,7 @@ SCENARIOS = {
     "regression+report/auto_update=False": (regression_with_report, ["beta", "sigma_transformed"], ["beta"], True),
     # a position may hold real values for a node that was initialised with integers: they are assigned as they are (no cast back)
     "int-initialised node in the position": (int_exposure_model, ["exposure", "rate"], ["exposure"], False),
+    "key that names a node and a variable": (ambiguous_key_model, ["w"], ["w"], False),
 }
 
 
@@ -271,7 +284,7 @@ def simple_interfaces(chk):
 def main():
     chk = Check("C03")
     names = list(SCENARIOS) if chk.tier == "thorough" else ["regression+report/same-state", "regression+report/node-names", "weak-hierarchy", "user-supplied totals", "auto_transform",
-                                                             "regression+report/GooseModel", "regression+report/GooseModel/auto_update=False", "regression+report/auto_update=False", "int-initialised node in the position"]
+                                                             "regression+report/GooseModel", "regression+report/GooseModel/auto_update=False", "regression+report/auto_update=False", "int-initialised node in the position", "key that names a node and a variable"]
     obs = []
     for nm in names:
         res = chk.guarded(f"{nm}:trace", f"[{nm}] tracing the interface calls", liesel_scenario, chk, nm)
